@@ -124,3 +124,75 @@ func VerifC01RollbackMinedTx() {
 	rt.Assert(len(marks) == 1 && marks[0] == a.rec.Hash, "input-marked-spent-by-the-pending-transaction")
 	rt.Reach("end")
 }
+
+// VerifC01RollbackSpendChain: the disconnected block holds a spend chain of the wallet: T1 spends the wallet's coin C
+// and pays the wallet, T2 spends T1's output and pays the wallet (both applied by the real AddRelevantTx, in block
+// order). After the real Rollback of that block the ledger is as before the block - C unspent and the only mined
+// coin, the balance restored, no debit, no record of the block - and both transactions are pending again, T1's
+// output a pending credit marked spent by T2, C marked spent by T1.
+func VerifC01RollbackSpendChain() {
+	a := vApplySetupID(true)
+	s := a.s
+	rt.Assume(a.coin.amount.UintValue()+a.outValue <= massutil.MaxAmount().UintValue())
+	sh2 := rt.NondetBytes(32)
+	for _, sh := range [][]byte{a.coin.scriptHash, a.shOut, sh2} {
+		keystore.VerifAddAddressWithHash(s.utxo.ksmgr, verifWID, vPk(vP2WSH(sh)).StdEncodeAddress(), sh)
+	}
+	t2 := wire.NewMsgTx()
+	t2.AddTxIn(wire.NewTxIn(&wire.OutPoint{Hash: a.rec.Hash, Index: 0}, nil))
+	out2 := uint64(rt.NondetU32()) + 1
+	rt.Assume(out2 <= a.outValue)
+	t2.AddTxOut(wire.NewTxOut(int64(out2), vP2WSH(sh2)))
+	vTxIDSeeds = []wire.Hash{vHash()}
+	T2 := &TxRecord{MsgTx: *t2, TxLoc: &wire.TxLoc{TxStart: 300, TxLen: 50}}
+	T2.Hash = T2.MsgTx.TxHash()
+	rt.Assume(T2.Hash != a.rec.Hash && T2.Hash != a.coin.outPoint.Hash)
+	T2.RelevantTxIn = []*RelevantMeta{{Index: 0, PkScript: vPk(vP2WSH(a.shOut)), WalletId: verifWID}}
+	T2.RelevantTxOut = []*RelevantMeta{{Index: 0, PkScript: vPk(vP2WSH(sh2)), WalletId: verifWID}}
+	s.tx.chainFetcher = &vChainByLoc{byStart: map[int]*wire.MsgTx{100: &a.rec.MsgTx, 300: &T2.MsgTx}}
+	s.bal.Set([]byte(verifWID), []byte{0, 0, 0, 0, 0, 0, 0, 0})
+	bal := map[string]massutil.Amount{verifWID: a.coin.amount}
+	err := mwdb.Update(s.db, func(dbtx mwdb.DBTransaction) error {
+		if e := s.tx.AddRelevantTx(dbtx, bal, a.rec, a.block); e != nil {
+			return e
+		}
+		if e := s.tx.AddRelevantTx(dbtx, bal, T2, a.block); e != nil {
+			return e
+		}
+		if e := s.utxo.UpdateMinedBalances(dbtx, bal); e != nil {
+			return e
+		}
+		v := make([]byte, 36)
+		copy(v, a.block.Hash[:])
+		s.sy.Set(vHeightKey(a.block.Height), v)
+		s.sy.Set([]byte(syncedToName), vHeightKey(a.block.Height))
+		return nil
+	})
+	rt.Assert(err == nil, "spend-chain-applied")
+	if err != nil {
+		rt.Reach("end")
+		return
+	}
+	rt.Assert(bal[verifWID].UintValue() == out2, "balance-after-the-chain-is-the-last-output")
+	err = mwdb.Update(s.db, func(dbtx mwdb.DBTransaction) error { return s.tx.Rollback(dbtx, a.block.Height) })
+	rt.Assert(err == nil, "rollback-of-a-spend-chain-succeeds")
+	if err != nil {
+		rt.Reach("end")
+		return
+	}
+	cv := s.c.Lookup(keyCredit(&a.coin.outPoint.Hash, a.coin.outPoint.Index, a.coin.block))
+	rt.Assert(len(cv) == 45 && cv[8]&1 == 0 && len(s.c.Ents) == 1 && len(s.u.Ents) == 1 && len(s.d.Ents) == 0, "only-the-original-coin-remains-unspent")
+	bv := s.bal.Lookup([]byte(verifWID))
+	var got uint64
+	for _, b := range bv {
+		got = got<<8 | uint64(b)
+	}
+	rt.Assert(len(bv) == 8 && got == a.balBefore, "balance-restored")
+	rt.Assert(len(s.t.Ents) == 0 && len(s.b.Ents) == 0, "block-and-transaction-records-removed")
+	rt.Assert(s.m.Lookup(a.rec.Hash[:]) != nil && s.m.Lookup(T2.Hash[:]) != nil && len(s.m.Ents) == 2, "both-transactions-pending-again")
+	m1 := fetchUnminedInputSpendTxHashes(s.mi, canonicalOutPoint(&a.coin.outPoint.Hash, a.coin.outPoint.Index))
+	m2 := fetchUnminedInputSpendTxHashes(s.mi, canonicalOutPoint(&a.rec.Hash, 0))
+	rt.Assert(len(m1) == 1 && m1[0] == a.rec.Hash && len(m2) == 1 && m2[0] == T2.Hash, "inputs-marked-spent-by-their-pending-spenders")
+	rt.Assert(s.mc.Lookup(canonicalOutPoint(&a.rec.Hash, 0)) != nil && s.mc.Lookup(canonicalOutPoint(&T2.Hash, 0)) != nil, "outputs-are-pending-credits")
+	rt.Reach("end")
+}
